@@ -339,12 +339,12 @@ def run_visit_guard(ctx: Ctx) -> RuleResult:
     # packed children on the second visit.  Every transform_* that is gated by the mark removes it.
     from ..exprs import find_pat
     marks = set()
-    for m in ftp.methods.values():
+    for m in ftp.swept_methods():
         for c, b_ in find_pat(m.body_nodes(), '$me.$attr.add(id($n.parent))'):
             marks.add(b_['attr'])
     n_gate = 0
     for attr in sorted(marks):
-        for m in ftp.methods.values():
+        for m in ftp.swept_methods():
             gate = find_pat(m.body_nodes(), 'if id($n) not in $me.%s:\n    return Discard' % attr)
             if not gate:
                 continue
